@@ -214,8 +214,15 @@ func (w *World) verifyFunction(key string, fc *FuncContract, mode Mode) (res *Fu
 	for _, r := range f.rets {
 		e.curPos = r.pos
 		e.curOrigin = r.blk
-		f.curBlock, f.curSt = nil, r.st
+		f.curBlock, f.curSt = r.blk, r.st
+		if r.blk != nil {
+			f.curIdx = len(r.blk.Instrs)
+		}
 		env := f.env(r.st)
+		// parameters denote their entry values in clauses evaluated at a return
+		for n, v := range f.params {
+			env.vars[n] = v
+		}
 		for i, v := range r.vals {
 			if i < len(rs) {
 				env.vars[rs[i]] = v
@@ -257,6 +264,9 @@ func (w *World) verifyFunction(key string, fc *FuncContract, mode Mode) (res *Fu
 		}
 		if len(fc.ModExprs) > 0 || fc.Pure {
 			menv := f.env(f.entrySt)
+			for n, v := range f.params {
+				menv.vars[n] = v
+			}
 			items := f.evalModItems(menv, fc.ModExprs)
 			f.frameObligations("frame", r.reach, f.entrySt, r.st, items, "alloc0")
 		}
